@@ -639,18 +639,18 @@ Proof.
     assert (Hj: 0 <= j).
     { destruct (st =? 2); [|discriminate]. rewrite <- (first_drop_eq_spec rpms Hrp) in Ed.
       eapply first_drop_ge; eauto. }
-    rewrite Z.eqb_refl. destruct (Z.eqb_spec (10 + j) 0); [lia|]. destruct (Z.eqb_spec (10 + j) 2); [lia|].
-    rewrite Hn, Z.eqb_refl. split; [reflexivity|split; assumption].
+    rewrite !Z.eqb_refl. destruct (Z.eqb_spec (10 + j) 0); [lia|]. destruct (Z.eqb_spec (10 + j) 2); [lia|].
+    rewrite Hn, !Z.eqb_refl. split; [reflexivity|split; assumption].
   - destruct (Z.geb_spec (cb_num c) mx) as [G|G]; cbn [fst snd clause_pick forallb okc].
-    + cbn [Z.ltb Z.compare Z.eqb Pos.compare Pos.compare_cont andb orb]. rewrite Hn, Z.eqb_refl.
+    + cbn [Z.ltb Z.compare Z.eqb Pos.compare Pos.compare_cont andb orb]. rewrite Hn, !Z.eqb_refl.
       destruct (Z.leb_spec mx (cb_out c)); [|lia]. split; [reflexivity|split; assumption].
     + assert (E1: u32 (cb_num c + 1) = cb_num c + 1) by (apply u32_id; lia). rewrite E1.
       destruct (fail =? 1); cbn [fst snd cb_num cb_out clause_pick forallb okc].
       * rewrite u32_dec by lia. replace (cb_num c + 1 - 1) with (cb_out c) by lia.
-        cbn [Z.ltb Z.compare Z.eqb Pos.compare Pos.compare_cont andb orb]. rewrite Z.eqb_refl.
+        cbn [Z.ltb Z.compare Z.eqb Pos.compare Pos.compare_cont andb orb]. rewrite !Z.eqb_refl.
         split; [reflexivity|]. split; cbn [cb_num cb_out]; lia.
       * cbn [Z.ltb Z.compare Z.eqb Pos.compare Pos.compare_cont andb orb].
-        destruct (Z.ltb_spec (cb_out c) mx); [|lia]. rewrite Hn, Z.eqb_refl.
+        destruct (Z.ltb_spec (cb_out c) mx); [|lia]. rewrite Hn, !Z.eqb_refl.
         split; [reflexivity|]. split; cbn [cb_num cb_out]; lia.
 Qed.
 
